@@ -206,16 +206,22 @@ func (o *Oracle) judgeHardening(e *Exchange, pol *Policy) {
 			_, overridden := ov[h]
 			pth, _, _ := requestPath(e.Target)
 			o.violate(e, as, fmt.Sprintf("%s = %q, want exactly %q (%s response)", h, vs, exp, kind), "header", h, "kind", ternary(len(e.Arrivals) > 0, "proxied", "own"),
-				"overridden", fmt.Sprint(overridden), "page", ternary(pth == "/oauth2/auth" && e.Status == 401, "auth-only-401", "other"))
+				"overridden", fmt.Sprint(overridden), "page", ternary(pth == "/oauth2/auth" && e.Status == 401, "auth-only-401", "other"), "after_1xx", fmt.Sprint(len(e.Interim) > 0))
 		}
 	}
 	if o.w.Cfg.Secure && !isHTTPS(e) {
 		o.res.cover("C18.A2|http-upgrade")
 		o.res.probe("https_redirect")
-		path, rq, _ := requestPath(e.Target)
-		wantLoc := (&url.URL{Scheme: "https", Host: e.Host, Path: path, RawQuery: rq}).String()
-		if e.Status != 301 || e.RespHdr.Get("Location") != wantLoc {
-			o.violate(e, "C18.A2-https-and-hsts", fmt.Sprintf("plain-HTTP request answered %d Location=%q, want 301 to %q", e.Status, e.RespHdr.Get("Location"), wantLoc), "facet", "upgrade")
+		// "redirected to https on the same host with the same (decoded) path and query", read with the
+		// independent splitter: scheme, authority, percent-decoded path, query
+		loc := e.RespHdr.Get("Location")
+		lp := split3986(loc)
+		reqPathRaw, rq := e.Target, ""
+		if i := strings.IndexByte(reqPathRaw, '?'); i >= 0 {
+			reqPathRaw, rq = reqPathRaw[:i], reqPathRaw[i+1:]
+		}
+		if e.Status != 301 || !strings.EqualFold(lp.scheme, "https") || !strings.EqualFold(lp.authority, e.Host) || pctDecode(lp.path) != pctDecode(reqPathRaw) || lp.query != rq {
+			o.violate(e, "C18.A2-https-and-hsts", fmt.Sprintf("plain-HTTP request for %q answered %d Location=%q, want 301 to https://%s with the same decoded path and query", clip(e.Target, 80), e.Status, clip(loc, 120), e.Host), "facet", "upgrade")
 		}
 	}
 	for _, c := range parseSetCookies(e.RespHdr.Values("Set-Cookie")) {
@@ -231,6 +237,23 @@ func (o *Oracle) judgeHardening(e *Exchange, pol *Policy) {
 			o.violate(e, "C18.A3-cookie-flags", fmt.Sprintf("Set-Cookie %q: want Path=/ Secure=%v HttpOnly Domain=%s", clip(c.Raw, 60)+"…"+tail(c.Raw, 80), o.w.Cfg.Secure, wantDomain))
 		}
 	}
+}
+
+// pctDecode undoes percent-encoding once (invalid escapes are kept as they are).
+func pctDecode(s string) string {
+	var b strings.Builder
+	for i := 0; i < len(s); i++ {
+		if s[i] == '%' && i+2 < len(s) {
+			hi, lo := unhex(s[i+1]), unhex(s[i+2])
+			if hi >= 0 && lo >= 0 {
+				b.WriteByte(byte(hi<<4 | lo))
+				i += 2
+				continue
+			}
+		}
+		b.WriteByte(s[i])
+	}
+	return b.String()
 }
 
 func tail(s string, n int) string {
